@@ -927,7 +927,22 @@ func httpStatus(w any) int { panic("ghost") }
 `
 
 // generate builds the synthetic file of a package.
+// droppedClauses: clauses ("contract file:line") left out of a second load because they name a field or method that
+// the code no longer has (main.go: the check then runs on what remains and ends BROKEN unless a violation is found).
+var droppedClauses = map[string]bool{}
+
 func (ps *PkgSpec) generate(trustedDir string) error {
+	if len(droppedClauses) > 0 {
+		for _, fs := range ps.Funcs {
+			var keep []*Clause
+			for _, c := range fs.Clauses {
+				if !droppedClauses[fmt.Sprintf("%s:%d", c.File, c.Line)] {
+					keep = append(keep, c)
+				}
+			}
+			fs.Clauses = keep
+		}
+	}
 	srcs, pkgName, err := parsePkgSources(ps.Dir)
 	if err != nil {
 		return err
